@@ -548,6 +548,18 @@ def run(ctx):
                                           first_byte, k0, front, cnt_atom, kept, cnt_atom, (first_byte - 12) // 4)))
         except (IndexError, AttributeError, TypeError, KeyError) as e:
             ctx.undec('R-DATAWINDOW', mapq, wq, 'window arithmetic not extracted (%s)' % type(e).__name__)
+    # ---------------- R-REWIND: a record file handed to a reader is positioned on its first record, whatever its history
+    ctx.rule('R-REWIND', 'OpenRecordFile returns the record file rewound to record 0 on every path (a caller-supplied RecordFile may have been used before)')
+    ffu = src.mod(CAMX + 'FortranFileUtil.py')
+    orf = ffu.func('OpenRecordFile')
+    rew = [st for st in orf.body if isinstance(st, ast.Expr) and isinstance(st.value, ast.Call) and isinstance(st.value.func, ast.Attribute) and st.value.func.attr == '_newrecord'
+           and st.value.args and norm(st.value.args[0]) == '0']
+    rets_ = [st for st in orf.body if isinstance(st, ast.Return)]
+    if rew and rets_ and rew[-1].lineno < rets_[-1].lineno:
+        ctx.ok('R-REWIND', 'OpenRecordFile', 'src/PseudoNetCDF/%sFortranFileUtil.py OpenRecordFile' % CAMX, '%s before return' % norm(rew[-1]))
+    else:
+        ctx.violation(Finding('R-REWIND', ffu.relpath, 'OpenRecordFile', rets_[-1] if rets_ else orf.body[-1], 'the record file is returned without an unconditional rewind (_newrecord(0)): a RecordFile object that was used before '
+                              'is parsed from wherever it was left, so the record readers expose other lengths and data than the memory-mapped readers for the same file'))
     # ---------------- R-SELPARAM: no selector parameter of a record-reader method is ignored
     ctx.rule('R-SELPARAM', 'record readers: every parameter of every method is read in its body (a selector that is accepted is also used/forwarded)')
     npar = 0
